@@ -198,6 +198,21 @@ Fixpoint cdu_rev (rp : list fseg) : M unit :=
   end.
 Definition clean_dirs_up (p : fpath) : M unit := cdu_rev (rev p).
 
+(** util.rs:25-36 clean_dirs_down: WalkDir(start).contents_first(true); every directory that is empty when
+    it is reached (its contents were visited before it) is removed - the start directory included, never
+    anything above it *)
+Fixpoint cdd (fuel : nat) (p : fpath) : M unit :=
+  (match fuel with
+   | O => ret tt
+   | S f =>
+     do t <- get_tree ;;
+     forM_ (children t p) (fun e => match snd e with Dir => cdd f (fst e) | File _ => ret tt end)
+   end) ;;
+  do t2 <- get_tree ;;
+  if has_children t2 p then ret tt else step (SRmdir p).
+Definition clean_dirs_down (p : fpath) : M unit :=
+  do t <- get_tree ;; cdd (List.length t) p.
+
 (** util.rs:39-46 remove_file_ignore_not_found *)
 Definition remove_file_inf (p : fpath) : M unit :=
   do r <- attempt (step (SUnlink p)) ;;
@@ -312,13 +327,16 @@ Definition rm_staged_files (c : cfg) (paths : list fpath) : M unit :=
 Definition files_below (t : tree) (dir : fpath) : list fpath :=
   map fst (filter (fun e => below dir (fst e) && match snd e with File _ => true | Dir => false end) t).
 
-(** fs.rs:808-834 rm_orphaned_files: files of the head content directory that are not in the manifest *)
+(** fs.rs:823-854 rm_orphaned_files: files of the head content directory that are not in the manifest; then
+    (9d3a720, fs.rs:847-850) the empty directories an earlier failed attempt may have left *)
 Definition rm_orphaned_files (c : cfg) (i : invr) : M unit :=
   let cd := c_so c ++ [head_of i; c_cdir c] in
   do t <- get_tree ;;
   if exists_at t cd then
     forM_ (filter (fun f => negb (mem_path (skipn (List.length (c_so c)) f) (i_man i))) (files_below t cd))
-          (fun f => remove_file_inf f ;; clean_dirs_up (parent f))
+          (fun f => remove_file_inf f ;; clean_dirs_up (parent f)) ;;
+    do t2 <- get_tree ;;
+    if exists_at t2 cd then clean_dirs_down cd else ret tt
   else ret tt.
 
 (** fs.rs:361-403 write_new_object (validate_new_object_root, 158-194, only reads) *)
@@ -400,8 +418,23 @@ Definition prep (c : cfg) : M invr :=
   rm_orphaned_files c i ;;                                                  (* repo.rs:1066 *)
   ret i.
 
-Definition install (c : cfg) (i : invr) : M unit :=                         (* repo.rs:1070-1078 *)
-  if inv_is_new i then write_new_object c else write_new_version c i.
+(** fs.rs:711-736 stage_object_declaration (82abd15, 9f4b67d): the declaration the inventory requires is read;
+    unless it is there with exactly its content it is removed and written again; then every other
+    0=ocfl_object_* file is removed - idempotent on every intermediate state of itself *)
+Definition stage_object_declaration (c : cfg) (i : invr) : M unit :=
+  do t <- get_tree ;;
+  let old := find_decls t (c_so c) in                                       (* fs.rs:716 *)
+  let ep := c_so c ++ [i_spec i] in
+  let complete := match read_file t ep with Some (CDecl s) => seg_eqb s (i_spec i) | _ => false end in   (* 721-722 *)
+  (if complete then ret tt
+   else remove_file_inf ep ;; write_namaste (c_so c) (i_spec i)) ;;         (* fs.rs:724-727 *)
+  forM_ (filter (fun q => negb (path_eqb q ep)) old) remove_file_inf.       (* fs.rs:729-733 *)
+
+Definition install (c : cfg) (i : invr) : M unit :=                         (* repo.rs:1075-1088 *)
+  if inv_is_new i then
+    stage_object_declaration c i ;;                                         (* repo.rs:1079 (7857f07) *)
+    write_new_object c
+  else write_new_version c i.
 
 Definition mid (c : cfg) (i : invr) : M unit :=
   do cl <- get_closed ;;                                                    (* repo.rs:1069 "last chance" *)
@@ -441,13 +474,6 @@ Definition get_or_create_staged (c : cfg) : M invr :=
                   | _ => throw e
                   end).
 
-(** fs.rs:696-714 stage_object_declaration (fix 82abd15) *)
-Definition stage_object_declaration (c : cfg) (i : invr) : M unit :=
-  do t <- get_tree ;;
-  let old := find_decls t (c_so c) in
-  if mem_path (c_so c ++ [i_spec i]) old then ret tt
-  else write_namaste (c_so c) (i_spec i) ;; forM_ old remove_file_inf.
-
 (** repo.rs:952-1004 upgrade_object (only the spec versions 1.0 < 1.1 exist: "version <= current" is
     equality with the current one; the repository version check only reads) *)
 Definition upgrade_object (c : cfg) : M unit :=
@@ -457,9 +483,8 @@ Definition upgrade_object (c : cfg) : M unit :=
      if seg_eqb (i_spec i0) (c_target c) then throw EIllegal                (* repo.rs:966-971 *)
      else
        let i := mkInv (c_midk c) (i_vs i0) (c_target c) (i_man i0) (i_dups i0) in   (* repo.rs:994 *)
-       stage_inventory c i false ;;                                          (* repo.rs:995 *)
-       (if inv_is_new i then stage_object_declaration c i else ret tt) ;;   (* repo.rs:997-1001 *)
-       commit_inner c).                                                      (* repo.rs:1003 *)
+       stage_inventory c i false ;;                                          (* repo.rs:1006 *)
+       commit_inner c).                                                      (* repo.rs:1008 *)
 
 (** repo.rs:836-844 reset_all (no lock is taken) *)
 Definition reset_all (c : cfg) : M unit :=
@@ -532,7 +557,9 @@ Record cfg_ok (c : cfg) : Prop := mkCfgOk {
   ok_mo_lock : under (c_mo c) (lockp c) = false;
   ok_inv_side : c_inv c <> c_side c;
   ok_cdir_inv : c_cdir c <> c_inv c;
-  ok_cdir_side : c_cdir c <> c_side c
+  ok_cdir_side : c_cdir c <> c_side c;
+  ok_inv_nodecl : is_decl_name (c_inv c) = false;
+  ok_side_nodecl : is_decl_name (c_side c) = false
 }.
 
 (** content path of the head version: <head>/<content dir>/<at least one more segment> *)
@@ -548,6 +575,8 @@ Record staged_ok (c : cfg) (t : tree) (i : invr) : Prop := mkStagedOk {
   st_vs : i_vs i <> [];
   st_head_inv : head_of i <> c_inv c;
   st_head_side : head_of i <> c_side c;
+  st_spec_inv : i_spec i <> c_inv c;
+  st_spec_side : i_spec i <> c_side c;
   st_man : forall d, In d (i_man i) -> content_path c (head_of i) d /\ exists n, lookup t (c_so c ++ d) = Some (File (CBlob n));
   st_dups : forall d, In d (i_dups i) -> In d (i_man i)
 }.
@@ -617,7 +646,8 @@ Definition cfg_ok_b (c : cfg) : bool :=
   && negb (under (c_so c) (c_locks c)) && negb (under (c_mo c) (c_locks c))
   && negb (under (lockp c) (c_so c)) && negb (under (lockp c) (c_mo c))
   && negb (under (c_so c) (lockp c)) && negb (under (c_mo c) (lockp c))
-  && negb (seg_eqb (c_inv c) (c_side c)) && negb (seg_eqb (c_cdir c) (c_inv c)) && negb (seg_eqb (c_cdir c) (c_side c)).
+  && negb (seg_eqb (c_inv c) (c_side c)) && negb (seg_eqb (c_cdir c) (c_inv c)) && negb (seg_eqb (c_cdir c) (c_side c))
+  && negb (is_decl_name (c_inv c)) && negb (is_decl_name (c_side c)).
 
 Definition is_blob (o : option node) : bool := match o with Some (File (CBlob _)) => true | _ => false end.
 
@@ -626,6 +656,7 @@ Definition staged_ok_b (c : cfg) (t : tree) (i : invr) : bool :=
   && match read_file t (c_so c ++ [c_inv c]) with Some x => content_eqb x (tok_of i) | None => false end
   && negb (match i_vs i with [] => true | _ => false end)
   && negb (seg_eqb (head_of i) (c_inv c)) && negb (seg_eqb (head_of i) (c_side c))
+  && negb (seg_eqb (i_spec i) (c_inv c)) && negb (seg_eqb (i_spec i) (c_side c))
   && forallb (fun d => match d with
                        | hh :: cd :: _ :: _ => seg_eqb hh (head_of i) && seg_eqb cd (c_cdir c) && is_blob (lookup t (c_so c ++ d))
                        | _ => false
